@@ -451,8 +451,10 @@ class TimeArray(np.ndarray, TimeInterface):
 
         if e.start > self[i_start]:  # make sure self[i_start] is in epoch e
             i_start += 1
-        if e.stop > self[i_stop]:  # make sure to include self[i_stop]
-            i_stop += 1
+        if e.stop > self[i_stop]:
+            # make sure to include self[i_stop] and every later sample that
+            # holds the same time (index_at returns the first of them)
+            i_stop = np.where(self == self[i_stop])[0].max() + 1
 
         return slice(i_start, i_stop)
 
